@@ -129,6 +129,8 @@ def get(string, dtype=None):
     """
     if not dtype:
         return str_get(string)
+    # valid_type accepts any spelling of a type name, make sure all of them convert.
+    dtype = dtype.lower()
     # special case, as the count-number is included in the type-name
     if dtype.endswith("-tuple"):
         return tuple_get(string, int(dtype[:-6]))
@@ -148,6 +150,8 @@ def set(value, dtype=None):
     if not dtype:
         return str_set(value)
 
+    # valid_type accepts any spelling of a type name, make sure all of them convert.
+    dtype = dtype.lower()
     if dtype.endswith("-tuple"):
         return tuple_set(value)
 
